@@ -24,9 +24,13 @@ What is recognised (everything else becomes `.unknown` / `false`, which no refer
 * `extract_result`: two empty-list bindings, `deferred.addCallbacks(S.append, F.append)`, arms `F[0].raiseException()`,
   `return S[0]`, `raise DeferredNotFired(deferred)`; falling off the end is the arm `(otherwise, returnNone)`; statements that follow an
   unconditional raise inside an arm (`Failure.raiseException()` always raises) are dead code and dropped.
-* `_run_user(self, function, /, *args, **kwargs)`: `d = defer.maybeDeferred(function, *args, **kwargs)` (positional AND keyword arguments
-  passed on: `_run_cleanups` hands the keyword arguments of `addCleanup` through it; the form without `**kwargs` is `.unknown`), `d.addErrback(self._got_user_failure)`, `return extract_result(d)` (directly or
-  through one local).
+* `_run_user(self, function, /, *args, **kwargs)`: the SIGNATURE is data of its own (`runUserSig`: the two named parameters positional-only,
+  `*args`, `**kwargs` - `_run_cleanups` hands the keyword arguments of `addCleanup` through it and no keyword NAME may collide with a
+  parameter; seed C20-g dropped the `/`); the body: `d = defer.maybeDeferred(lambda: function(*args, **kwargs))` = `.maybeDeferred true` (a
+  thunk: nothing of the user's reaches maybeDeferred's own parameters) or `d = defer.maybeDeferred(function, *args, **kwargs)` =
+  `.maybeDeferred false` (handed over: a keyword called `f` collides with maybeDeferred's first parameter - not what the model is the reading
+  of); the form without `**kwargs` is `.unknown`; `d.addErrback(self._got_user_failure)`, `return extract_result(d)` (directly or through
+  one local).
 * `_got_user_failure(self, failure, tb_label=...)` - the errback `_run_user` installs; looked up on `SynchronousDeferredRunTest` and, when it does
   not define it, on its single base `_DeferredRunTest`: exactly `return self._got_user_exception((failure.type, failure.value,
   failure.getTracebackObject()), tb_label=tb_label)` = EVERY failure is reported as the user's exception, whatever its class (seed C20-f let
@@ -326,24 +330,38 @@ def extract_result(fn):
 
 
 # ---------------------------------------------------------------- _run_user
+def run_user_sig(fn):
+    """the signature `(self, function, /, *args, **kwargs)`: the two named parameters positional-only (no keyword name of a cleanup can
+    collide with them - seed C20-g dropped the `/`), nothing else named, `*args` and `**kwargs` present"""
+    a = fn.args
+    named_pos_only = len(a.posonlyargs) == 2 and not a.args and not a.kwonlyargs and not a.defaults
+    return '{ namedPositionalOnly := %s, varArgs := %s, varKwargs := %s }' % tuple(
+        'true' if x else 'false' for x in (named_pos_only, a.vararg is not None, a.kwarg is not None))
+
+
 def run_user(fn):
-    ps = [a.arg for a in fn.args.posonlyargs + fn.args.args]      # (`function` may be positional-only)
+    ps = [a.arg for a in fn.args.posonlyargs + fn.args.args]      # (whether `function` is positional-only is run_user_sig's business)
     kw = fn.args.kwarg.arg if fn.args.kwarg else None
     steps = []
     d = res = None
+    ok = len(ps) == 2 and fn.args.vararg and kw
+    # the call of the user's function: as a thunk - `defer.maybeDeferred(lambda: function(*args, **kwargs))`, nothing of the user's reaches
+    # maybeDeferred's own parameters - or handed over - `defer.maybeDeferred(function, *args, **kwargs)`, where a keyword named like
+    # maybeDeferred's first parameter (`f`) collides
+    thunk = ok and 'defer.maybeDeferred(lambda: %s(*%s, **%s))' % (ps[1], fn.args.vararg.arg, kw)
+    direct = ok and 'defer.maybeDeferred(%s, *%s, **%s)' % (ps[1], fn.args.vararg.arg, kw)
     for s in body_of(fn):
         u = ast.unparse(s)
         if isinstance(s, ast.Assign) and len(s.targets) == 1 and isinstance(s.targets[0], ast.Name):
             name, v = s.targets[0].id, ast.unparse(s.value)
-            if len(ps) == 2 and fn.args.vararg and kw and v == 'defer.maybeDeferred(%s, *%s, **%s)' % (ps[1], fn.args.vararg.arg, kw) and d is None:
+            if ok and d is None and v in (thunk, direct):
                 d = name
-                steps.append('.maybeDeferred')
+                steps.append('(.maybeDeferred %s)' % ('true' if v == thunk else 'false'))
                 continue
             # `addErrback` returns the Deferred it is called on: the chained spelling is the same two steps
-            if len(ps) == 2 and fn.args.vararg and d is None and \
-                    kw and v == 'defer.maybeDeferred(%s, *%s, **%s).addErrback(self._got_user_failure)' % (ps[1], fn.args.vararg.arg, kw):
+            if ok and d is None and v in (thunk + '.addErrback(self._got_user_failure)', direct + '.addErrback(self._got_user_failure)'):
                 d = name
-                steps += ['.maybeDeferred', '.addErrbackGotUserFailure']
+                steps += ['(.maybeDeferred %s)' % ('true' if v.startswith(thunk) else 'false'), '.addErrbackGotUserFailure']
                 continue
             if d and v == 'extract_result(%s)' % d and res is None:
                 res = name
@@ -419,13 +437,17 @@ def failed : MatcherSrc :=
 def extractResult : ExtractSrc :=
     %s
 
+def runUserSig : RunUserSig :=
+    %s
+
 def runUser : List RunUserStep := %s
 
 def gotUserFailure : List GotFailureStep := %s
 
 end TTV.Generated.DeferredSrc
 ''' % (on_deferred_result(find(d, 'on_deferred_result')), matcher(m, '_NoResult'), matcher(m, '_Succeeded'), matcher(m, '_Failed'),
-       extract_result(find(d, 'extract_result')), run_user(find(r, 'SynchronousDeferredRunTest._run_user')), got_user_failure(r))
+       extract_result(find(d, 'extract_result')), run_user_sig(find(r, 'SynchronousDeferredRunTest._run_user')),
+       run_user(find(r, 'SynchronousDeferredRunTest._run_user')), got_user_failure(r))
 
 
 if __name__ == '__main__':
